@@ -21,10 +21,10 @@ if [ $a -ne 0 ]; then
   while read -r r; do [ -z "$r" ] && continue; ns cargo test --offline $r >> seeded/validate.a-rerun.log 2>&1 || a=1; done <<< "$reruns"
 fi
 git apply seeded/demo.diff || { echo "RESULT demo does not apply on top of patch"; clean; exit 9; }
-ns cargo test -p trusttunnel --no-fail-fast --offline > seeded/validate.b.log 2>&1; b=$?
+ns cargo test --workspace --no-fail-fast --offline > seeded/validate.b.log 2>&1; b=$?
 clean
 git apply seeded/demo.diff || { echo "RESULT demo does not apply alone"; exit 9; }
-ns cargo test -p trusttunnel --no-fail-fast --offline > seeded/validate.c.log 2>&1; c=$?
+ns cargo test --workspace --no-fail-fast --offline > seeded/validate.c.log 2>&1; c=$?
 if [ $c -ne 0 ]; then
   reruns=$(grep -o 'to rerun pass `[^`]*`' seeded/validate.c.log | sed 's/to rerun pass `//; s/`$//' | sort -u)
   c=0; echo "RERUN (demo only) of failing test binaries: $reruns"
